@@ -101,7 +101,10 @@ func (m *Machine) schedGate(th *Thread, what string) bool {
 	if th.passedSched {
 		return true
 	}
-	if th.atomicDepth > 0 {
+	if th.atomicDepth > 0 && len(th.frames) > 0 && th.top().info.atomic {
+		// inside a library call that is executed as one atomic step (reduction (a)): only its
+		// first synchronisation operation is a scheduling point. Code the library calls back
+		// into (e.g. io.Copy -> Read of the repository) is not part of the atomic step.
 		if th.atomicGate {
 			return true
 		}
